@@ -358,6 +358,70 @@ func c02Harness(rich bool) Harness {
 	}
 }
 
+// c02Sizes: large messages: N trips with M stop time updates each, N vehicles, N alerts with M
+// selectors, periods and translations, for N and M around powers of two: counts at which slices and maps grow.
+var c02SizeN = []int{1, 8, 9, 65, 257, 1025}
+var c02SizeM = []int{0, 1, 9, 65}
+
+func c02Sizes(c *Ctx) {
+	n := c02SizeN[c.Free("entities_per_kind", len(c02SizeN))]
+	mm := c02SizeM[c.Free("repeated_fields", len(c02SizeM))]
+	if n*mm > 20000 {
+		mm = 17 // 1025 trips x 17 updates
+	}
+	tz := tzOptions[c.Free("timezone", len(tzOptions))]
+	ts := uint64(1700000000)
+	m := newFeed(&ts)
+	for i := 0; i < n; i++ {
+		td := &gtfsrt.TripDescriptor{TripId: sp(fmt.Sprintf("T%05d", (i*7919)%n)), RouteId: sp(fmt.Sprintf("R%d", i%5)), StartDate: sp("20240310"), StartTime: sp(fmt.Sprintf("%02d:%02d:00", i%30, i%60))}
+		tu := &gtfsrt.TripUpdate{Trip: td, Vehicle: &gtfsrt.VehicleDescriptor{Id: sp(fmt.Sprintf("V%05d", (i*7919)%n))}}
+		for s := 0; s < mm; s++ {
+			seq := uint32(s + 1)
+			tu.StopTimeUpdate = append(tu.StopTimeUpdate, &gtfsrt.TripUpdate_StopTimeUpdate{StopSequence: &seq, StopId: sp(fmt.Sprintf("S%d-%d", i, s)),
+				Arrival: &gtfsrt.TripUpdate_StopTimeEvent{Time: cp2(int64(ts) + int64(60*s+i))}, Departure: &gtfsrt.TripUpdate_StopTimeEvent{Delay: cp32(int32(s - i))}})
+		}
+		m.Entity = append(m.Entity, &gtfsrt.FeedEntity{Id: sp(fmt.Sprintf("tu%d", i)), TripUpdate: tu})
+	}
+	for i := 0; i < n; i++ {
+		lat, lon := float32(40)+float32(i)/1000, float32(-73)-float32(i)/1000
+		m.Entity = append(m.Entity, &gtfsrt.FeedEntity{Id: sp(fmt.Sprintf("vp%d", i)), Vehicle: &gtfsrt.VehiclePosition{Vehicle: &gtfsrt.VehicleDescriptor{Id: sp(fmt.Sprintf("V%05d", i))},
+			Position: &gtfsrt.Position{Latitude: &lat, Longitude: &lon}, StopId: sp(fmt.Sprintf("VS%d", i)), Timestamp: u64p(ts + uint64(i))}})
+	}
+	for i := 0; i < n; i++ {
+		a := &gtfsrt.Alert{Cause: gtfsrt.Alert_Cause(1 + i%12).Enum(), Effect: gtfsrt.Alert_Effect(1 + i%9).Enum()}
+		for s := 0; s <= mm; s++ {
+			a.InformedEntity = append(a.InformedEntity, &gtfsrt.EntitySelector{StopId: sp(fmt.Sprintf("AS%d-%d", i, s)), RouteId: sp(fmt.Sprintf("AR%d", s%3))})
+			a.ActivePeriod = append(a.ActivePeriod, &gtfsrt.TimeRange{Start: u64p(ts + uint64(100*s)), End: u64p(ts + uint64(100*s+50))})
+		}
+		a.HeaderText = &gtfsrt.TranslatedString{}
+		for s := 0; s <= mm; s++ {
+			a.HeaderText.Translation = append(a.HeaderText.Translation, &gtfsrt.TranslatedString_Translation{Text: sp(fmt.Sprintf("header %d/%d", i, s)), Language: sp(fmt.Sprintf("l%d", s))})
+		}
+		m.Entity = append(m.Entity, &gtfsrt.FeedEntity{Id: sp(fmt.Sprintf("al%d", i)), Alert: a})
+	}
+	b := marshalFeed(m)
+	c.Input(hash64(string(b)+tz.name), true, func() string { return fmt.Sprintf("%d trips x %d updates, %d vehicles, %d alerts x %d selectors/periods/translations, timezone=%s", n, mm, n, n, mm+1, tz.name) })
+	r, err, ok := parseRT(c, b, &gtfs.ParseRealtimeOptions{Timezone: tz.loc})
+	if !ok {
+		return
+	}
+	c.Steps(3 * n)
+	if err != nil {
+		c.Fail("valid-message-rejected", "ParseRealtime rejected a valid message: %v", err)
+		return
+	}
+	want := refParse(m, tz.loc)
+	o := rtDumpOpts{sortVehicles: true, sortTrips: true}
+	wd, gd := dumpRealtime(want.rt, o), dumpRealtime(r, o)
+	c.Outcome(gd)
+	if wd != gd {
+		c.Fail(c02Signature(wd, gd), "result differs from the wire content (%d entities per kind, %d repeated fields, timezone=%s)\n%s", n, mm, tz.name, diffLines(wd, gd))
+	}
+	c.Witness("large_message")
+}
+
+func cp32(v int32) *int32 { return &v }
+
 // c02Signature names the first differing line kind (Trip / STU / Vehicle / Alert / CreatedAt).
 func c02Signature(want, got string) string {
 	return "transcription:" + firstDiffKind(want, got)
@@ -368,6 +432,7 @@ func init() {
 		ID:    "C02",
 		Level: "model_checking",
 		Rule: "conflict-free messages from 2 trip + 2 vehicle descriptors in 6 entity slots (TU T1, VP V1, TU T2, VP V2, alert, id-less VP), 0-3 or 7 stop time updates, every optional wire field present/absent with boundary values (timestamps 0/1/2^31/DST-gap/2100, delays incl. int32 extremes, all enum values used by the library), x Timezone option {nil, UTC, +05:30, America/New_York, Europe/London, and two fixed zones that share the name EST but not the offset}, x 3 entity orders; within k deviations (quick 2, thorough 3) of a sparse and a rich base; " +
+			"plus messages of 1..1025 trips x 0..65 stop time updates, as many vehicles, and alerts with 1..66 selectors / periods / translations, under every zone option; " +
 			"non-trivial = distinct (message bytes, zone) with >= 2 entities; oracle = reference interpretation written from the statement",
 		Assumptions: []string{"protobuf-go Marshal/Unmarshal is trusted", "messages outside the quantifier (coinciding pool entries, empty vehicle descriptor inside a trip update) are executed for crash freedom only", "the harness embeds time/tzdata"},
 		Scenarios: func(tier string) []*Scenario {
@@ -375,7 +440,7 @@ func init() {
 			if tier == "thorough" {
 				k = 3
 			}
-			return []*Scenario{{Name: "sparse", Bound: k, Run: c02Harness(false)}, {Name: "rich", Bound: k, Run: c02Harness(true)}}
+			return []*Scenario{{Name: "sparse", Bound: k, Run: c02Harness(false)}, {Name: "rich", Bound: k, Run: c02Harness(true)}, {Name: "sizes", Bound: -1, Run: c02Sizes}}
 		},
 	})
 }
